@@ -35,6 +35,35 @@ def install_invariant():
     ms.ModelState._ticcmon_inv = True
 
 
+def run_bigdata(spec, res):
+    """deep_copy on a state whose training data is tens of megabytes (size-dependent copying must still share nothing)."""
+    import numpy as np
+    from fast_ticc.containers import model_state as ms, arguments
+    from ticcmon import history
+    rows, cols = 700000, 8           # 42.7 MiB of float64
+    data = np.zeros((rows, cols))
+    data[::1000, 0] = 1.0
+    lam = np.full((cols, cols), 0.1)
+    args = arguments.UserArguments(lam, 5, 1.0, 2, 0, 3, 1, 1, True)
+    st = ms.ModelState.empty_model(args, data)
+    labels = [i % 3 for i in range(3000)]
+    st.point_labels = labels
+    for k, c in enumerate(st.clusters):
+        c.computed_covariance = np.eye(2) * (k + 1)
+        c.stacked_data_mean = np.zeros(cols)
+    cp = st.deep_copy()
+    res.evaluations += 1
+    shared = history.deep_copy_shares(st, cp)
+    for s_ in shared[:2]:
+        res.violation("deep_copy of a state with %.0f MiB of training data: %s" % (data.nbytes / 2 ** 20, s_), dict(what="bigdata"))
+    cp.stacked_training_data[0, 0] = 99.0
+    cp.arguments.sparsity_weight[0, 0] = 7.0
+    if st.stacked_training_data[0, 0] != 1.0 or lam[0, 0] != 0.1:
+        res.violation("writing into a deep copy (large training data) changed the source", dict(what="bigdata"))
+    res.count("bigdata_deep_copies")
+    res.nontriv("bigdata")
+
+
 def plan(tier, seed):
     q = tier == "quick"
     specs = ec.plan_e2e(seed, 13, MIX, 90 if q else 1200, nwcap=12 if q else 24)
@@ -44,6 +73,7 @@ def plan(tier, seed):
     parts = 14 if q else 32
     for p, n in enumerate(common.split_counts(nh, parts)):
         specs.append(dict(name="hist-%d" % p, mode="interp", what="hist", n=n, base=seed * 1000003 + p * 100000))
+    specs.append(dict(name="bigdata", mode="interp", what="bigdata"))
     return specs
 
 
@@ -52,6 +82,9 @@ def nontrivial(run, I):
 
 
 def run_shard(spec, res):
+    if spec["what"] == "bigdata":
+        run_bigdata(spec, res)
+        return
     if spec["what"] in ("e2e", "fixture"):
         install_invariant()
         before = EVALS["n"]
@@ -79,6 +112,9 @@ def run_shard(spec, res):
 
 
 def replay(case, res):
+    if case and case.get("what") == "bigdata":
+        run_bigdata({}, res)
+        return
     if case and case.get("what") == "hist":
         viol, st = history.run_history(case["seed"])
         res.evaluations += 1
@@ -99,5 +135,6 @@ def finalize(merged, tier):
     ec.min_counter(merged, out, "op:relabel", 500 if q else 5000)
     ec.min_counter(merged, out, "op:assign_swap", 500 if q else 5000)
     ec.min_counter(merged, out, "op:assign_unlabelled", 300 if q else 3000)
+    ec.min_counter(merged, out, "bigdata_deep_copies", 1)
     ec.unexpected(merged, out)
     return out
